@@ -16,7 +16,7 @@ from typing import TYPE_CHECKING, Any, Callable
 
 from _griffe.agents.nodes.parameters import get_parameters
 from _griffe.enumerations import LogLevel, ParameterKind
-from _griffe.exceptions import NameResolutionError
+from _griffe.exceptions import BuiltinModuleError, NameResolutionError
 from _griffe.logger import logger
 
 if TYPE_CHECKING:
@@ -1296,6 +1296,8 @@ def safe_get_expression(
             path: Path | str = parent.relative_filepath
         except ValueError:
             path = "<in-memory>"
+        except BuiltinModuleError:
+            path = f"<module: {parent.module.name}>"
         lineno = node.lineno  # type: ignore[union-attr]
         error_str = f"{error.__class__.__name__}: {error}"
         message = msg_format.format(path=path, lineno=lineno, node_class=node_class, error=error_str)
